@@ -347,8 +347,9 @@ func runC05Concurrent(c *core.Ctx, res *core.Result) {
 		k := []byte(fmt.Sprintf("s%04d", r.Intn(5000)))
 		v := []byte(fmt.Sprintf("stable-%d-%d", c.Idx, i))
 		if r.Chance(15) {
-			e.Delete(k)
-			stable.Del(k)
+			if e.Delete(k) == nil {
+				stable.Del(k)
+			}
 		} else {
 			if err := e.Put(k, v); err == nil {
 				stable.Put(k, v)
